@@ -617,6 +617,39 @@ retry(
 """,
 )
 retry(
+    "retry_module_ctx",
+    """
+    def architecture(self):
+        REF['e'] = self
+        # context bodies that are persistent MODULE-LEVEL functions (the same function objects in every compilation of this
+        # class), registered with the core API; they bind local names
+        cohdl.concurrent_context(mod_logic)
+        cohdl.sequential_context(mod_proc)
+
+        @std.concurrent
+        def guarded():
+            if FLAGS['bad']:
+                self.o <<= self.v
+            else:
+                self.o <<= self.a
+""",
+    pre='''REF = {}
+
+def mod_logic():
+    e = REF['e']
+    x = e.v + 1
+    y = x + 1
+    e.w <<= y
+
+def mod_proc():
+    e = REF['e']
+    if cohdl.rising_edge(e.clk):
+        t = e.b
+        u = ~t
+
+''',
+)
+retry(
     "retry_ctx",
     """
     def architecture(self):
